@@ -450,6 +450,15 @@ class Exec:
         if isinstance(v, Bound) and v.name == "__type__":
             # type(x) as a value: an uninterpreted function of x
             return self.w.ufun("type_of", S.Py, S.Py)(self.to_py(v.obj))
+        if isinstance(v, Obj) and v.cls == "dict":
+            # a dictionary as an opaque Py value: the empty one exactly, any other only "a dict"
+            # (its contents are not carried across the injection)
+            d0 = v.attrs.get("dom")
+            if d0 is not None and z3.is_K(d0) and z3.is_false(d0.arg(0)):
+                return P.PDict(S.nil, S.nil)
+            t = self.fresh("a_dict", S.Py)
+            self.assume(P.is_PDict(t))
+            return t
         raise Unsupported(f"cannot inject {v!r} into Py")
 
     def to_list(self, v, line=None):
